@@ -41,6 +41,7 @@ ASSUMPTIONS = [
     '(order observable through de-duplicated names and checked by the correspondence)',
 ]
 HEADER = 'Require Import V.Lib.PyStr V.Dsl.Model.\nOpen Scope string_scope.\nOpen Scope list_scope.'
+SPEC_HEADER = 'Require Import V.Lib.PyStr V.Dsl.Model V.Dsl.Spec.\nOpen Scope string_scope.\nOpen Scope list_scope.'
 
 METHODS = ['ref', 'output', 'copy', 'link']
 
@@ -785,8 +786,17 @@ CORPUS = [
 
 
 # ------------------------------------------------------------------ run
+def c_spec(want):
+    """what the Python flattener returned, as a Coq term of type option (list py_out) of coq/Dsl/Spec.v"""
+    if want is None:
+        return 'None'
+    return '(Some %s)' % clist(sorted(want), lambda l: '(%s, %s, %s)' % (
+        clist(l, cstr), c_val(want[l][0]),
+        clist(sorted(want[l][1]), lambda r: '(%s, %s, %s)' % (clist(r[0], cstr), clist(r[1], cstr), cstr(r[2])))))
+
+
 def _explore(ctx, cases):
-    terms, kept = [], []
+    terms, sterms, kept = [], [], []
     for label, ns in cases:
         doc = to_doc(ns)
         impl = drive(doc)
@@ -815,6 +825,7 @@ def _explore(ctx, cases):
         if why is not None:
             ctx.fail({'label': label, 'ns': ns, 'doc': doc, 'impl': impl}, why, ())
         terms.append(cpair(c_ns(ns), c_impl(impl)))
+        sterms.append(cpair(c_ns(ns), c_spec(want)))
         kept.append((label, ns, doc, impl))
     bad = ctx.model_mismatches(HEADER, terms, 'check_case', chunk=40)
     for i in bad:
@@ -822,6 +833,19 @@ def _explore(ctx, cases):
         model = ctx.model_eval(HEADER, 'compile %s' % c_ns(ns)) if len(ctx.disagreements) < 3 else ''
         ctx.disagree({'label': label, 'ns': ns, 'doc': doc}, impl, model[-1500:],
                      'compile (coq/Dsl/Model.v) = namespace_to_flowir on components/references/arguments/error locations')
+    # the Coq specification spec_ns (coq/Dsl/Spec.v, the object of the refinement theorems) is tied twice: it must
+    # return what the Python flattener [spec] (the predicate above, evaluated on the implementation) returns, and the
+    # compiler model must refine it (same instances, rendered arguments, producer/file/method triples; Err <-> invalid)
+    bad = ctx.model_mismatches(SPEC_HEADER, sterms, 'check_spec', chunk=40, name='spec')
+    for i in bad:
+        label, ns, doc, impl = kept[i]
+        model = ctx.model_eval(SPEC_HEADER, '(spec_ns %s, check_refines %s)' % (c_ns(ns), c_ns(ns))) if len(ctx.disagreements) < 3 else ''
+        try:
+            py = c_spec(spec(ns))
+        except Invalid as e:
+            py = 'Invalid: %s' % e
+        ctx.disagree({'label': label, 'ns': ns, 'doc': doc}, py[-1500:], model[-1500:],
+                     'spec_ns (coq/Dsl/Spec.v) = the Python flattener spec of harness/c06.py, and compile refines spec_ns')
 
 
 def run(ctx):
